@@ -15,7 +15,9 @@ CONSTANTS
   MaxChanges = 0
   MaxUpdates = 1
   MaxCalls = 2
+  NPages = 1
   ModernUnsub = FALSE
+  ForeignUnsub = FALSE
   Stepwise = TRUE
   Gates = TRUE
   GateNames = {"put"}
